@@ -338,6 +338,14 @@ OUTSIDE_MODEL = {
     "C19r": "price-dependent tick size from a table of bands: the grid is no longer the one tick size the rules know; the wrong band below the first bound is an index slip inside the new accessor",
     "C19s": "last resolved tick cell remembered in a class attribute: levels served from kept state are refused; the lower conversion storing the wrong level is a question about what the cell holds",
     "C20s": "half spread memoised once the fundamental is flat: a value read from kept agent state is refused; shocks moving a flat fundamental is a question about invalidation",
+    "C05k": "agents may answer a fill with orders that are placed and matched at once inside a new notification helper; the fills of those nested rounds go into a list: a second settlement route, refused (the corrected shape would apply the list before telling anybody, which C05.R3 accepts)",
+    "C05s": "a new settlement routine for sweeps writes cash and shares: a new function among the writers of the holdings is refused, the rule cannot tell it from FC05s, which books every fill on its own parties",
+    "C09r": "the execution guards ask a new method of the session (is_order_executable) instead of reading the switch: a decision taken by new code is refused; FC09r is the same shape with the switch read inside the method",
+    "C10r": "Logger.write / bulk_write keep a record only if a new overridable accepts() says so: a conditional write decided by new code is refused; whether a subclass drops records it needs depends on the overrides (FC10r has the same base-class code)",
+    "C10s": "records are collected per market and handed over once per step through new helpers (_write_log, _flush_logs): new sinks and deferred writes are refused; FC10s batches only within one round and is the same shape",
+    "C16r": "a new helper of the runner switches the session's execution flag and the markets' running flags at break boundaries: a new writer of the session switch is refused; FC16r re-opens only what it closed and is the same shape",
+    "C17r": "index of indices: the index loops distinguish components by class; what a component of another class contributes is not stated by the rule (FC17r uses the market price for every class, same shape)",
+    "C18r": "markets are also listed under the names of the entries their group inherits from; the extra filing (driven by a new parameter) and the de-duplicated id list are refused; wrong only when the parent entry is itself a listed group, which is a fact about the configuration",
     "C20q": "chart-following flag moved to a class attribute and its sign cached in the constructor: the chart term no longer reads the instance's flag where the rule looks for it; whether the cached sign can go stale is a question about later writers of the flag",
     "C01q": "non-top removals re-sort the queue with a key function instead of re-heapifying: a queue kept by sort() is refused (whether the key agrees with the comparison of orders, here: where market orders go on the buy side, is a question about the key; FC01q is a correct key of the same shape)",
     "C02q": "the heap holds key tuples built around the orders, with an arrival number taken from len(queue): entries around orders are refused (FC02q is the same shape without the number)",
